@@ -389,7 +389,9 @@ var c16Keys = []string{"a", "b", "c"}
 func c16GenOp(rt *rapid.T, nkeys int) []string {
 	k := func() string { return c16Keys[rapid.IntRange(0, nkeys-1).Draw(rt, "key")] }
 	v := func() string { return strconv.Itoa(rapid.IntRange(0, 3).Draw(rt, "val")) }
-	switch rapid.IntRange(0, 10).Draw(rt, "op") {
+	switch rapid.IntRange(0, 11).Draw(rt, "op") {
+	case 11:
+		return []string{"DEL", k(), "zz", c16Keys[nkeys-1]} // several keys in one DEL
 	case 0:
 		return []string{"GET", k()}
 	case 1:
@@ -436,7 +438,7 @@ func overlapping(h c16History) bool {
 }
 
 func TestC16(t *testing.T) {
-	h := newHarness(t, "C16", "concurrent histories of GET/SET/SETNX/GETSET/INCR/DECRBY/APPEND/MSETNX/DEL over 1..3 keys. CONTROLLED mode (reference store with a turnstile before every primitive handler call): client A is parked at its g-th primitive call "+
+	h := newHarness(t, "C16", "concurrent histories of GET/SET/SETNX/GETSET/INCR/DECRBY/APPEND/MSETNX/DEL (one or several keys) over 1..3 keys. CONTROLLED mode (reference store with a turnstile before every primitive handler call): client A is parked at its g-th primitive call "+
 		"(g in 0..2, i.e. before Get, between Get and Set, ...) while client B's command is started - exhaustively for all pairs of operation kinds x g x {key absent, key=5}, and in random multi-round sequences; "+
 		"UNCONTROLLED mode: 2..8 clients x 1..4 operations on real goroutines against the reference store and against the bundled example store. Oracle: the recorded client-side history (logical-clock invoke/return stamps) must be linearizable "+
 		"against the sequential Redis model (porcupine, complete search). TURNS mode: 2..3 clients taking turns without overlap against both stores (the history's only admissible order is the real-time one; state cached per connection shows here). SLOW-READER mode: a client's command has been executed but its reply is held back while two other clients work, then delivered. In controlled and hammer runs a client may first receive an error reply (INCR of a non-integer). "+
@@ -455,7 +457,7 @@ func TestC16(t *testing.T) {
 
 	// (a) exhaustive pairs in controlled mode
 	if h.Shard == 0 {
-		kinds := [][]string{{"GET", "a"}, {"SET", "a", "7"}, {"SETNX", "a", "8"}, {"GETSET", "a", "9"}, {"INCR", "a"}, {"DECRBY", "a", "2"}, {"APPEND", "a", "1"}, {"MSETNX", "a", "3", "b", "4"}, {"DEL", "a"}}
+		kinds := [][]string{{"GET", "a"}, {"SET", "a", "7"}, {"SETNX", "a", "8"}, {"GETSET", "a", "9"}, {"INCR", "a"}, {"DECRBY", "a", "2"}, {"APPEND", "a", "1"}, {"MSETNX", "a", "3", "b", "4"}, {"DEL", "a"}, {"DEL", "a", "b"}}
 		inits := [][][]string{nil, {{"SET", "a", "5"}}}
 		complete := true
 	pairs:
@@ -480,7 +482,7 @@ func TestC16(t *testing.T) {
 				}
 			}
 		}
-		h.Col.Exhaustive("controlled: all ordered pairs of 9 operation kinds x park point 0..3 x {absent, a=5}, and at park point 1 also with A or B having received an error reply before", complete)
+		h.Col.Exhaustive("controlled: all ordered pairs of 10 operation kinds x park point 0..3 x {absent, a=5}, and at park point 1 also with A or B having received an error reply before", complete)
 	}
 
 	// (a') random multi-round controlled sequences
@@ -508,7 +510,7 @@ func TestC16(t *testing.T) {
 	// (b') uncontrolled "hammer": many clients issuing the same kind of read-modify-write command on one key
 	h.Rapid("hammer", h.N(150, 20000), func(rt *rapid.T) {
 		p := c16Plan{Store: rapid.SampledFrom([]string{"example", "example", "refstore"}).Draw(rt, "store")}
-		kind := rapid.SampledFrom([]string{"GETSET", "SETNX", "INCR", "APPEND", "DECRBY", "MSETNX", "mixed"}).Draw(rt, "kind")
+		kind := rapid.SampledFrom([]string{"GETSET", "SETNX", "INCR", "APPEND", "DECRBY", "MSETNX", "DELn+SETNX", "mixed"}).Draw(rt, "kind")
 		if rapid.Bool().Draw(rt, "init") {
 			p.Init = append(p.Init, []string{"SET", "a", "5"})
 		}
@@ -537,6 +539,12 @@ func TestC16(t *testing.T) {
 					ops = append(ops, []string{"DECRBY", "a", "1"})
 				case "MSETNX":
 					ops = append(ops, []string{"MSETNX", "a", v, "b", v})
+				case "DELn+SETNX":
+					if (i+j)%2 == 0 {
+						ops = append(ops, []string{"DEL", "a", "never-stored"})
+					} else {
+						ops = append(ops, []string{"SETNX", "a", v})
+					}
 				default:
 					ops = append(ops, c16GenOp(rt, 1))
 				}
